@@ -122,6 +122,8 @@ def run(run):
             else:
                 hist = [{'op': 'decode', 'm': m}, {'op': 'query', 'm': m}, {'op': 'render', 'm': m}, {'op': 'rewire', 'm': m}]
             jobs.append((m, hist))
+            if m != 8:
+                jobs.append((m, [{'op': 'info', 'm': m}]))
             if m not in BAD:
                 jobs.append((m, [{'op': 'encode', 'm': m}]))       # message 8: the reference result is the refusal
         with cf.ThreadPoolExecutor(8) as ex:
